@@ -73,7 +73,9 @@ impl RefCfb8 {
 #[derive(Clone)]
 enum Op { Write(Vec<u8>, Vec<W>), Switch(Vec<u8>), Read(Vec<R>, bool),
     /// the same bytes handed over as several slices through `write_vectored`, one byte accepted per poll
-    WriteV(Vec<Vec<u8>>, Vec<W>) }
+    WriteV(Vec<Vec<u8>>, Vec<W>),
+    /// the sending side is shut down (half-close): what the peer still sends is deciphered as before, and so is whatever is written later
+    Shutdown }
 
 fn gen_wsched(rng: &mut Rng, len: usize) -> Vec<W> {
     let style = rng.below(5);
@@ -127,6 +129,12 @@ fn run_session(ops: &[Op]) -> (String, String, Option<String>) {
                 }
                 req.push(format!("w {} {}", hex(plain), sch.iter().map(|w| match w { W::Pending => "p".to_string(), W::Accept(n) => format!("a{n}") }).collect::<Vec<_>>().join(" ")).trim_end().to_string());
                 obs.push(format!("w:{written}:{}", hex(&accepted)));
+            }
+            Op::Shutdown => {
+                let sh = shared.clone();
+                let _ = drive(stream.shutdown(), move || !sh.lock().unwrap().wsched.is_empty());
+                req.push("h".to_string());
+                obs.push("h".to_string());
             }
             Op::WriteV(parts, sch) => {
                 let plain: Vec<u8> = parts.concat();
@@ -218,6 +226,7 @@ fn parse_session(line: &str) -> Option<Vec<Op>> {
         match op.first()? {
             &"w" => ops.push(Op::Write(unhex(op[1])?, op[2..].iter().map(|x| if *x == "p" { Some(W::Pending) } else { x.strip_prefix('a')?.parse().ok().map(W::Accept) }).collect::<Option<Vec<_>>>()?)),
             &"s" => ops.push(Op::Switch(unhex(op[1])?)),
+            &"h" => ops.push(Op::Shutdown),
             &"r" => ops.push(Op::Read(op[1..].iter().map(|x| if *x == "p" { Some(R::Pending) } else { unhex(x).map(R::Data) }).collect::<Option<Vec<_>>>()?, true)),
             _ => return None,
         }
@@ -242,6 +251,7 @@ pub fn run(a: &Args) {
         let mut class = vec![];
         for i in 0..nops {
             if i == switch_at { ops.push(Op::Switch(rng.bytes(16))); class.push("s"); }
+            if rng.chance(1, 30) { ops.push(Op::Shutdown); class.push("h"); }
             if rng.chance(1, 25) {
                 // a write that is abandoned while pending (nothing accepted), then OTHER bytes of the same length
                 let len = rng.range(1, 64) as usize;
